@@ -60,4 +60,36 @@ def specPx (u : Nat) : Option Rat :=
   else if u = uQ then some (96 / (1016/10))
   else none
 
+/-! ## the computed value of `display` (CSS 2.1 §9.7, CSS Display 3 §2.7) -/
+
+/-- a display value as the validator stores it: (outer, inner, "list-item" or "") — the internal table
+    types, `table-caption` and `none` are stored as (keyword, "", "") -/
+abbrev Disp := String × String × String
+
+def tableParts : List String :=
+  ["table-caption", "table-row-group", "table-cell", "table-header-group", "table-footer-group",
+   "table-row", "table-column-group", "table-column"]
+
+/-- **§9.7**: on the root element, on floats (`float` ≠ none) and on absolutely positioned elements
+    (`position` absolute / fixed) the display is blockified:
+      inline-table → table, inline-flex → flex, inline-grid → grid (outer inline → block, inner kept),
+      inline, inline-block → block (an inline flow-root box loses its flow-root nature, Display 3 §2.7),
+      list items stay list items (inline list-item → block list-item),
+      table-row-group, table-column, table-column-group, table-header-group, table-footer-group,
+      table-row, table-cell, table-caption → block,
+      everything else (block, table, flex, grid, flow-root, list-item, none) as specified. -/
+def specDisplay (blockify : Bool) (d : Disp) : Disp :=
+  if !blockify then d
+  else if d.2.1 = "" ∧ d.2.2 = "" ∧ d.1 ∈ tableParts then ("block", "flow", "")
+  else if d.1 = "inline" then
+    if d.2.2 = "list-item" then ("block", "flow", "list-item")
+    else ("block", if d.2.1 = "flow-root" then "flow" else d.2.1, "")
+  else d
+
+/-- every display value the validator can produce -/
+def allDisplays : List Disp :=
+  [("none", "", "")] ++ tableParts.map (fun t => (t, "", "")) ++
+  (["block", "inline"].flatMap fun o => ["flow", "flow-root", "table", "flex", "grid"].map fun i => (o, i, "")) ++
+  (["block", "inline"].flatMap fun o => ["flow", "flow-root"].map fun i => (o, i, "list-item"))
+
 end WR.C04
